@@ -986,6 +986,10 @@ class TransactionEvaluator:
         if isinstance(node.op, ast.Add):
             return left + right
         if isinstance(node.op, ast.Sub):
+            if isinstance(left, date_type) and isinstance(right, date_type):
+                # The difference of two dates is a number of days, so that it can be compared
+                # with one: abs(r.date - txn.date) <= 3
+                return (left - right).days
             return left - right
         if isinstance(node.op, ast.Mult):
             return left * right
